@@ -1108,7 +1108,7 @@ func (dn *dirnode) loadManifest(txt string) error {
 					pos = next
 					continue
 				}
-				if pos >= offset+length {
+				if length == 0 || pos >= offset+length {
 					break
 				}
 				var blkOff int
